@@ -13,6 +13,7 @@ package vrt
 import (
 	"fmt"
 	"os"
+	"reflect"
 	"runtime"
 	"runtime/debug"
 	"time"
@@ -76,10 +77,11 @@ const (
 	OpCondSignal
 	OpOnce
 	OpChoose
+	OpSleep
 )
 
 var opNames = [...]string{"none", "start", "point", "lock", "unlock", "rlock", "runlock", "wannounce", "wacquire",
-	"wgadd", "wgaddfin", "wgwait", "wgresume", "atomic", "select", "recv", "send", "close", "join", "condwait", "condsignal", "once", "choose"}
+	"wgadd", "wgaddfin", "wgwait", "wgresume", "atomic", "select", "recv", "send", "close", "join", "condwait", "condsignal", "once", "choose", "sleep"}
 
 func (k OpKind) String() string { return opNames[k] }
 
@@ -101,6 +103,9 @@ type Task struct {
 	nops    int
 	ophash  uint64
 	started bool
+	pend    *pendingOp    // blocking channel operation announced by this task
+	selVal  reflect.Value // value received by the task's last SelectG
+	selOk   bool
 }
 
 // ChoicePoint is one recorded choice point (a scheduling point with more than one enabled
@@ -133,6 +138,11 @@ type Exec struct {
 	crashStk  string
 	finished  chan struct{}
 	joinToken byte
+
+	// virtual time (time.go)
+	vnow     time.Duration
+	timers   []*vtimer
+	timerSeq int
 
 	// OnPoint, if set, is called at every choice point before the choice is made,
 	// with the index of the point; returning false prunes (aborts) the execution.
@@ -318,6 +328,9 @@ retry:
 			n++
 		}
 	}
+	if n == 0 && e.advanceClock() {
+		goto retry
+	}
 	if n == 0 {
 		// A task blocked on a channel may be waiting for something outside the task
 		// world (a timer). Poll in real time for a while before declaring deadlock.
@@ -342,7 +355,7 @@ retry:
 func (e *Exec) anyChanWaiter() bool {
 	for i := 0; i < e.ntasks; i++ {
 		u := e.tasks[i]
-		if !u.done && (u.opKind == OpSelect || u.opKind == OpRecv) {
+		if !u.done && (u.opKind == OpSelect || u.opKind == OpRecv || u.opKind == OpSend) {
 			return true
 		}
 	}
@@ -597,6 +610,7 @@ func Run(cfg Config, body func()) *Result {
 		e.horizon = 20000
 	}
 	e.points = make([]ChoicePoint, 64)
+	resetChanState()
 	if cfg.HB {
 		e.hb = true
 		e.objs = make(map[unsafe.Pointer]*objHash)
